@@ -278,6 +278,12 @@ def report_check(ctx, rng, spec, gkind, tol, max_iter, ffp):
     dur_ok = res.duration_s is not None and res.duration_s >= 0 and all((r.duration_s is not None and r.duration_s >= 0) for r in res.iteration_results) and \
         sum(float(r.duration_s) for r in res.iteration_results if r.duration_s is not None) <= float(res.duration_s) * (1 + 1e-6) + 1e-3 and \
         float(res.duration_s) <= wall + 1e-3  # ... which in turn cannot exceed the wall time the harness measured around the call
+    # the three phase timings of an iteration record (linearisation, solve, update), where present, are parts of that record's duration
+    for r in res.iteration_results:
+        for name in ("calc_chi2_gradient_hessian_duration_s", "solve_duration_s", "update_duration_s"):
+            d_ = getattr(r, name, None)
+            if d_ is not None:
+                dur_ok = dur_ok and 0.0 <= float(d_) <= (float(r.duration_s) if r.duration_s is not None else wall) + 1e-3
     ctx.check("durations-present", dur_ok, feats, None, case)
     # verbose does not alter
     g3 = M.build(spec)
